@@ -440,8 +440,7 @@ pcgstrf_MemInit(int_t n, int_t annz, superlumt_options_t *superlumt_options,
 int_t
 pcgstrf_WorkInit(int_t n, int_t panel_size, int_t **iworkptr, complex **dworkptr)
 {
-    int_t  isize, dsize, extra;
-    complex *old_ptr;
+    int_t  isize, dsize;
     int_t    maxsuper = sp_ienv(3),
            rowblk   = sp_ienv(4);
 
@@ -461,28 +460,12 @@ pcgstrf_WorkInit(int_t n, int_t panel_size, int_t **iworkptr, complex **dworkptr
     if ( whichspace == SYSTEM )
 	*dworkptr = (complex *) SUPERLU_MALLOC((size_t) dsize);
     else {
-	    *dworkptr = (complex *) cuser_malloc(dsize, TAIL);
-	    if ( NotDoubleAlign(*dworkptr) ) {
-	        old_ptr = *dworkptr;
+	    /* Ask for room to align inside the block: moving the stack top
+	       afterwards is not atomic with the allocation, and another
+	       thread's area may already sit below this one. */
+	    *dworkptr = (complex *) cuser_malloc(dsize + sizeof(double), TAIL);
+	    if ( *dworkptr && NotDoubleAlign(*dworkptr) )
 	        *dworkptr = (complex*) DoubleAlign(*dworkptr);
-	        *dworkptr = (complex*) ((double*)*dworkptr - 1);
-	        extra = (char*)old_ptr - (char*)*dworkptr;
-#if ( DEBUGlevel>=1 )
-	        printf("pcgstrf_WorkInit: not aligned, extra" IFMT "\n", extra);
-#endif	    
-#if ( MACH==PTHREAD ) /* Use pthread ... */
-        pthread_mutex_lock( &stack.lock );
-#elif ( MACH==OPENMP ) /* Use openMP ... */
-#pragma omp critical ( STACK_LOCK )
-#endif
-              {
-	        stack.top2 -= extra;
-	        stack.used += extra;
-	      }
-#if ( MACH==PTHREAD ) /* Use pthread ... */
-        pthread_mutex_unlock( &stack.lock );
-#endif
-	    }
     } /* else */
     if ( ! *dworkptr ) {
 	printf("malloc fails for local dworkptr[] ... dsize " IFMT "\n", dsize);
